@@ -105,8 +105,7 @@ def check_classes(name, sp, fx, stats):
         def lookup(y, flip=False):
             l, r = ('right', 'left') if flip else ('left', 'right')
             args = (y['name'], y[l + 'Asset'], y[r + 'Asset'])
-            twice = sum(1 for z in sp['associations'] if z['name'] == y['name'] and
-                        {z['leftAsset'], z['rightAsset']} == {y['leftAsset'], y['rightAsset']}) > 1
+            twice = names.count(y['name']) > 1
             if twice:
                 # name and asset types do not identify the association: the field names are part of the question
                 try:
